@@ -1,9 +1,10 @@
 import PedalModel.DriverLoop
-import PedalModel.Sections
+import PedalModel.SectionsG
 open Pedal
 
 def dispatch : List String → String
-  | "sections" :: ts => Sections.handle ts
+  | "sections" :: ts => Sections.handleG ts     -- next_section's arithmetic from the program generated from the tree under test
+  | "sectionsh" :: ts => Sections.handle ts     -- the hand-written model (equal by `runG_eq_run`)
   | "split" :: ts => Sections.handleSplit ts
   | _ => "bad-request"
 
